@@ -170,7 +170,7 @@ CHECKS = {
              "(c09_newRecord_appends); an add_record sequence leaves the target with its former records followed by one new record per source "
              "record, same kinds, same order, other cells untouched (c09_addRecords_conserves). Strict URI-level multiset conservation, refusals "
              "(duplicate / missing identifier / nested bundles) and immutability of `other` are checked on the real code by a conservation "
-             "oracle and by correspondence. On the heap (Props/C09D): c09_addRecord_heap (add_record of a stored record never fails, appends exactly one fresh record == to its source to that container only, writes no existing cell), c09_addRecords_heap (whole sequences, copies paired with sources in order), c09_flattened_heap. Props/C09E: the premise 'stored record' is an invariant of every history of the public mutators (c09_reachable_stored, c09_reachable_wf: managers, index ranges, required identifiers too), hence c09_flattened_reachable without hypotheses on the records. Props/C09F: add_bundle - every refusal leaves the receiving document's cell as it was (c09_addBundle_error_frame; the three refusals named by the property: c09_addBundle_refuses_nested/_missing_id/_duplicate); success adds exactly one bundle-table entry under the resolved, previously unused identifier, holding the stand-alone bundle itself or == copies of all records of the added document (c09_addBundle_attaches_bundle/_document). Props/C09G: update - c09_updateBundle_heap/_refuses; ProvDocument.update(other) succeeds and is a chain of steps (Chain/Step), one per bundle of other, each appending == copies of that bundle's records to the bundle of d with the same identifier URI or to a bundle created for it, writing nothing else (updateDoc_go_chain, c09_updateDoc_heap), with a reachable two-document instance. Props/C09H: c09_flattened_reach - flattened() of any document with bundles in ANY reachable state (Reach: mutators and deriving operations in any order) succeeds and conserves. Likewise c09_updateBundle_reach (ProvBundle.update appends == copies to exactly the target) and c09_addBundle_document_reach (add_bundle of a bundle-free document) with no hypothesis on records, managers or indices. Props/C09X: c09_refused_updateBundle - bundle.update(document with bundles) is refused before anything is touched (the heap is the same).",
+             "oracle and by correspondence. On the heap (Props/C09D): c09_addRecord_heap (add_record of a stored record never fails, appends exactly one fresh record == to its source to that container only, writes no existing cell), c09_addRecords_heap (whole sequences, copies paired with sources in order), c09_flattened_heap. Props/C09E: the premise 'stored record' is an invariant of every history of the public mutators (c09_reachable_stored, c09_reachable_wf: managers, index ranges, required identifiers too), hence c09_flattened_reachable without hypotheses on the records. Props/C09F: add_bundle - every refusal leaves the receiving document's cell as it was (c09_addBundle_error_frame; the three refusals named by the property: c09_addBundle_refuses_nested/_missing_id/_duplicate); success adds exactly one bundle-table entry under the resolved, previously unused identifier, holding the stand-alone bundle itself or == copies of all records of the added document (c09_addBundle_attaches_bundle/_document). Props/C09G: update - c09_updateBundle_heap/_refuses; ProvDocument.update(other) succeeds and is a chain of steps (Chain/Step), one per bundle of other, each appending == copies of that bundle's records to the bundle of d with the same identifier URI or to a bundle created for it, writing nothing else (updateDoc_go_chain, c09_updateDoc_heap), with a reachable two-document instance. Props/C09H: c09_flattened_reach - flattened() of any document with bundles in ANY reachable state (Reach: mutators and deriving operations in any order) succeeds and conserves. Likewise c09_updateBundle_reach (ProvBundle.update appends == copies to exactly the target) and c09_addBundle_document_reach (add_bundle of a bundle-free document) with no hypothesis on records, managers or indices. Props/C09I: the structural hypotheses of the document-level update theorem are an invariant of histories (WT: every bundle-table entry refers to an existing non-document container with an identifier whose _document is the lister; kept by every mutator and deriving operation provided add_bundle is never given a bundle that is already attached - one bundle object in two documents is the aliasing the theorem excludes): c09_updateDoc_reach - for two different documents d, o of any such reachable state d.update(o) does not raise, appends == copies of o's top-level records to d and merges each bundle of o into the bundle of d with the same identifier URI or into a bundle created for it, writing nothing else. Props/C09X: c09_refused_updateBundle - bundle.update(document with bundles) is refused before anything is touched (the heap is the same).",
         note=A_COMMON + " The composition of the record-level theorem with the heap plumbing of new_record (identifier resolution, element "
              "identifier check, cell allocation) is by correspondence; c09_addRecords_conserves covers kinds, counts and frames.",
         technique="Lean 4: content theorem for re-created records (all managers, all stored records) + induction over add_record sequences + correspondence + oracle",
